@@ -2361,6 +2361,9 @@ impl Connection {
 
         let was_closed = self.state.is_closed();
         let was_drained = self.state.is_drained();
+        // Draining means the peer's close (or another fatal error) was already recorded for the
+        // application
+        let was_draining = matches!(self.state, State::Draining | State::Drained);
 
         let decrypted = match packet {
             None => Err(None),
@@ -2443,7 +2446,11 @@ impl Connection {
 
         // State transitions for error cases
         if let Err(conn_err) = result {
-            self.error = Some(conn_err.clone());
+            // Do not report a second reason (e.g. a stateless reset that arrives while draining)
+            // once the loss of the connection has been recorded.
+            if !was_draining {
+                self.error = Some(conn_err.clone());
+            }
             self.state = match conn_err {
                 ConnectionError::ApplicationClosed(reason) => State::closed(reason),
                 ConnectionError::ConnectionClosed(reason) => State::closed(reason),
